@@ -2,7 +2,9 @@
 """Print the brief given to a seeding sub-agent for one property (title + statement only, nothing from /verif)."""
 import json, sys
 pid = sys.argv[1]
-wt = "/var/tmp/seed/" + pid
+sid = sys.argv[2] if len(sys.argv) > 2 else pid          # seed id (worktree name), e.g. C01-2
+avoid = sys.argv[3] if len(sys.argv) > 3 else ""         # ideas already used by earlier seeds
+wt = "/var/tmp/seed/" + sid
 p = [json.loads(l) for l in open('/verif/properties.jsonl') if json.loads(l)['id'] == pid][0]
 print(f"""You are given a git worktree of apple/swift-llbuild (Apple's low-level incremental build engine: C++ core library `lib/Core` with a SQLite build database, `lib/BuildSystem`, `lib/Ninja`, `lib/Basic`, a C API in `products/libllbuild`, the `llbuild` command line tool in `products/llbuild` + `lib/Commands`) at `{wt}`. Work ONLY inside that directory (it is a detached worktree; do not touch `/repo`, do not touch `/verif`, do not read anything under `/verif`). No network is available.
 
@@ -15,6 +17,7 @@ Your task: produce ONE realistic code change (a plausible bug a maintainer could
   (b) the project's existing unit tests all still pass, and
   (c) the breakage needs something specific to manifest: a particular interleaving or completion order, a crash or fault at a particular point, a multi-step sequence of operations (e.g. a particular history of builds and changes), an unusual input, or two cooperating code sites that each look fine alone. A change whose effect shows in the very first trivial use is NOT wanted.
 Prefer a small diff (1-15 lines) in the code that is meant to make the property hold (read the code first and understand the mechanism).
+""" + (("Earlier seeds for this property already used the following idea(s); choose a DIFFERENT mechanism, code site and kind of trigger: " + avoid + "\n") if avoid else "") + f"""
 
 How to build and run the existing tests (takes a few minutes the first time; use all cores):
   cmake -G Ninja -S {wt} -B {wt}/_build -DCMAKE_BUILD_TYPE=RelWithDebInfo -DCMAKE_CXX_COMPILER=clang++-16 -DCMAKE_CXX_FLAGS=-Wno-error > /dev/null
@@ -27,7 +30,7 @@ You must also write a DEMONSTRATION: a small stand-alone program or a new google
 Deliverables, all inside `{wt}/seed_demo/`:
   - `patch.diff` : `git -C {wt} diff -- . ':!seed_demo'` of your change (source files only, not the demo),
   - the demonstration sources and `run.sh`,
-  - `meta.json` : {{"property": "{pid}", "summary": "<one line: what the change does>", "needs": "<what specific interleaving/history/input/fault it needs in order to manifest>", "files": [...], "tests_pass": true, "demo_fails_with_change": true, "demo_passes_without": true}}.
+  - `meta.json` : {{"property": "{pid}", "seed": "{sid}", "summary": "<one line: what the change does>", "needs": "<what specific interleaving/history/input/fault it needs in order to manifest>", "files": [...], "tests_pass": true, "demo_fails_with_change": true, "demo_passes_without": true}}.
 Leave the worktree with your change APPLIED (uncommitted) and `_build` built with it.
 
 In your final reply give: the diff, why it breaks the property, exactly what is needed for it to manifest, and the output of the test binaries and of the demonstration with and without the change. If your first idea turns out to be caught by the existing tests, or to be visible immediately, try another idea.""")
